@@ -1,5 +1,6 @@
 import Ucan.Driver.Command
 import Ucan.Driver.Glob
+import Ucan.Driver.Selector
 /-!
 Line-protocol driver: one case per input line, one canonical answer per output line.
 Imports models and specs only (core Lean), never lemmas or property files.
@@ -13,6 +14,7 @@ def dispatch (toks : List String) : String :=
     | t :: _ =>
       if t.startsWith "cmd." then runCommand toks
       else if t.startsWith "glob." then runGlob toks
+      else if t.startsWith "sel." then runSelector toks
       else none
   match r with
   | some s => s
